@@ -79,7 +79,7 @@ def run(ctx):
     ctx.tlc_mc("MC_Cro", "SPECIFICATION CSpec\nCONSTANTS\n  MaxE = 2\n  MaxMol = %d\nVIEW McView\nCONSTRAINT Bounded\nINVARIANT NonNegative Aligned\n"
                "PROPERTY Conserved ConsumesTwo Locality\nCHECK_DEADLOCK FALSE\n" % (2 if q else 3), "mc-cro",
                workers=4 if q else 10, timeout=3000)
-    runlib.run_templates(ctx, ["C20"], seeds=list(range(ctx.seed, ctx.seed + (4 if q else 50))),
+    runlib.run_templates(ctx, ["C20"], seeds=list(range(ctx.seed, ctx.seed + (4 if q else 12))),
                          iters=[0, 3, 20, 60] if q else [3, 20, 60, 200], templates=["real_cro"], quick_grid=False)
     return ctx.finish(RULE)
 
